@@ -20,7 +20,7 @@ json.dump({
  "origin": f"independent sub-agent given the twenty property statements and a scratch worktree of /repo at {head}; asked for legitimate re-implementations that preserve all properties but change unspecified behaviour; nothing from /verif",
  "changes_unspecified_behaviour": what,
  "crate_suite_with_patch": tests,
- "checks_run": "selftest/mutant.sh --crate-tests (quick tier, release + dev builds, all ten claimed properties, scratch copy of /repo)",
+ "checks_run": "selftest/mutant.sh --crate-tests (quick tier" + (", a 1/" + __import__("os").environ["MUTANT_DIV"] + " share of its budget" if __import__("os").environ.get("MUTANT_DIV") else "") + ", release + dev builds, all ten claimed properties, scratch copy of /repo)",
  "alarms": alarms,
  "harness_errors": herr,
 }, open(f"{d}/meta.json","w"), indent=1)
